@@ -1,6 +1,7 @@
 (* Props/C09.v - KILL QUERY spares the connection; KILL CONNECTION ends exactly the target. *)
 From Coq Require Import List Arith NArith Lia Bool.
 From MM Require Import Lib.Bytes Model.Conn Model.Resp Proofs.ConnInv Proofs.C10Proofs Proofs.KillProofs Proofs.KillAbort Proofs.RespProofs Gen.FactsConn Gen.FactsRoute Gen.FactsControl.
+From MM Require Import Gen.FactsOutline.
 Import ListNotations.
 Open Scope N_scope.
 
@@ -14,6 +15,12 @@ Theorem c09_source_shape :
   (* the KILL statement reaches Connection.kill from the issuing connection's own task (the self-kill guard relies on it) *)
   session_session_kill_middleware_ok = true /\ control_add_remove_kill_ok = true.
 Proof. repeat split; reflexivity. Qed.
+
+(* the modules this property rests on define the functions, classes, methods and class-level names they defined when the
+   model was transcribed - nothing added (an override, a new helper in the path), removed or renamed *)
+Theorem c09_module_outlines : translated_outline = true /\ outline_connection_ok = true /\ outline_control_ok = true /\ outline_server_ok = true.
+Proof. repeat split; reflexivity. Qed.
+
 
 (* in EVERY state: a KILL QUERY that finds no command being handled (idle, connection phase, shutdown,
    re-authentication) changes nothing and writes nothing *)
